@@ -150,11 +150,29 @@ def generated_alias_documents(ctx):
     for (name, doc), al in zip(bases, aliases):
         own = set(c.get("alias") for c in doc.get("checkpoints", []) if isinstance(c, dict))
         ids = [c.get("id") for c in doc.get("checkpoints", []) if isinstance(c, dict) and isinstance(c.get("id"), int)]
+        # the hand-written checkpoint is a copy of a checkpoint of the document (so that it is well typed there) with the
+        # operator of its single comparison flipped (so that it is no duplicate of the original)
+        flip = {"EQUALS": "DOES_NOT_EQUAL", "DOES_NOT_EQUAL": "EQUALS", "GREATER_THAN": "LESS_THAN", "LESS_THAN": "GREATER_THAN",
+                "ONE_OF": "NONE_OF", "NONE_OF": "ONE_OF", "CONTAINS": "DOES_NOT_CONTAIN", "DOES_NOT_CONTAIN": "CONTAINS"}
+        tmpl = next((c for c in doc.get("checkpoints", []) if isinstance(c, dict) and isinstance(c.get("dependencies"), list) and len(c["dependencies"]) == 1
+                     and isinstance(c["dependencies"][0], dict) and isinstance(c["dependencies"][0].get("compare"), dict)
+                     and c["dependencies"][0]["compare"].get("operator") in flip and "context" not in c), None)
         for a in al:
             if a in own or not a.startswith("_"):
                 continue
             d = copy.deepcopy(doc)
-            d.setdefault("checkpoints", []).append({"id": max(ids + [0]) + 50, "alias": a, "description": "hand written", "dependencies": [dep]})
+            if tmpl is not None:
+                new = copy.deepcopy(tmpl)
+                new["id"], new["alias"] = max(ids + [0]) + 50, a
+                new["dependencies"][0]["compare"]["operator"] = flip[new["dependencies"][0]["compare"]["operator"]]
+            else:
+                new = {"id": max(ids + [0]) + 50, "alias": a, "description": "hand written", "dependencies": [dep]}
+            d.setdefault("checkpoints", []).append(new)
+            # keep it referenced: an action without a dependency waits for it (when the comparison does not mention that action)
+            free = [x for x in d.get("actions", []) if isinstance(x, dict) and "depends_on" not in x and "context" not in x
+                    and ("action:%s." % x.get("id")) not in json.dumps(new) and ("action:{%s}" % x.get("name")) not in json.dumps(new)]
+            if free:
+                free[-1]["depends_on"] = "checkpoint:%d" % new["id"]
             docs.append((name, a, d))
     if not docs:
         return 0
